@@ -191,3 +191,52 @@ def rule_json_pure(ctx):
                         'before on this thread' % why)
     r.check_floor()
     return r
+
+
+def rule_json_sibling(ctx):
+    f = ctx.facts()
+    r = RuleResult('JSON-SIBLING', 'raw document fields of the same shape are converted the same way: sources, sourcesContent and names '
+                                   '(each Option<Vec<Option<String>>>) go through one and the same sequence of conversions, so null entries read '
+                                   'as empty strings in all three (dropping them in one shifts its indices)')
+    r.floor = 3
+    names = rule_json_names(ctx)
+    keys, reader, raw_adt, tf = names._chain
+    sm = anchors.adt_by_name(f, 'SourceMap')
+    aggs = [(pt, s) for pt, s in tf.points() if s['k'] == 'assign' and s['r']['k'] == 'agg' and s['r'].get('path') == sm['path']]
+    if len(aggs) != 1:
+        r.violation('tryfrom-aggregate', tf.span(), tf.path, 'expected one SourceMap aggregate in TryFrom', reason='unrecognised-idiom')
+        return r
+    from ..ir import inline
+    raw_ty = {fl['name']: fl['ty'] for fl in anchors.fields(f.adts[raw_adt])}
+    groups = {}
+    pt, s = aggs[0]
+    for n, o in zip(s['r']['fields'], s['r']['ops']):
+        e = inline(f, tf.expr_of_operand(o), depth=2)
+        deps = [x[2] for x in walk(e) if x[0] == 'field' and x[3] == raw_adt]
+        if len(set(deps)) != 1:
+            continue
+        # conversion skeleton: callee names along the value chain, plus function items passed as arguments
+        chain = []
+        for x in walk(e):
+            if x[0] == 'call':
+                chain.append(x[1].rsplit('::', 1)[-1])
+            elif x[0] == 'fn':
+                chain.append('fn:' + x[1].rsplit('::', 1)[-1])
+            elif x[0] == 'agg' and x[1] == 'closure':
+                cb = f.body(x[2])
+                if cb is not None:
+                    chain.append('closure:' + ','.join(sorted(t['callee']['name'] for _, t in cb.calls() if t.get('callee'))))
+        groups.setdefault(raw_ty[deps[0]], []).append((n, tuple(chain)))
+    for ty, lst in sorted(groups.items()):
+        if len(lst) < 2:
+            continue
+        ref = max(set(c for _, c in lst), key=lambda c: sum(1 for _, c2 in lst if c2 == c))
+        for n, chain in lst:
+            ok = chain == ref
+            r.site('SourceMap.%s (raw type %s) converted by %s' % (n, ty, list(chain)[:8]), s['s'], 'ok' if ok else 'violation')
+            if not ok:
+                r.violation('convert:%s' % n, s['s'], tf.path,
+                            'field `%s` is converted differently (%s) from its siblings of the same raw type (%s): e.g. null entries are '
+                            'dropped instead of read as empty strings, shifting later indices' % (n, list(chain)[:8], list(ref)[:8]))
+    r.check_floor()
+    return r
